@@ -28,6 +28,7 @@ class HarnessResult:
         self.unreachable = 0
         self.failed_checks = []  # (check id, description, location)
         self.ignored_failed = []
+        self.unsupported = []
         self.cover_total = 0
         self.cover_satisfied = 0
         self.time_s = 0.0
@@ -91,7 +92,9 @@ def _parse(text, wanted):
         for fm in re.finditer(r"Failed Checks: (.*)\n\s*File: \"?([^\n\"]*)\"?, line (\d+)", body):
             desc = fm.group(1).strip()
             loc = "%s:%s" % (fm.group(2), fm.group(3))
-            if any(desc.startswith(p) or p in desc for p in IGNORED_DESCRIPTIONS):
+            if "is not currently supported by Kani" in desc:
+                r.unsupported.append((desc, loc))  # reachable unsupported construct: not a property verdict
+            elif any(desc.startswith(p) or p in desc for p in IGNORED_DESCRIPTIONS):
                 r.ignored_failed.append((desc, loc))
             else:
                 r.failed_checks.append(("", desc, loc))
@@ -106,6 +109,8 @@ def _parse(text, wanted):
                 r.status = "error"  # CBMC crashed / OOM / unsupported construct
             elif r.failed_checks:
                 r.status = "failed"
+            elif r.unsupported:
+                r.status = "error"  # only an unsupported construct was hit: inconclusive
             elif r.checks_failed and len(r.ignored_failed) >= r.checks_failed:
                 r.status = "success"  # only ignored float-NaN style checks failed
             elif r.checks_failed == 0:
